@@ -56,7 +56,7 @@ Definition trim_l (p : path) (is_open : bool) : path :=
   match p with
   | [] => []
   | [_] => []
-  | [a; b] => if negb is_open || pt_eqb a b then [] else p
+  | [a; b] => if negb is_open then [] else p
   | a :: t => if is_open then a :: main_l a t ++ [last t a] else trim_closed_l p a
   end.
 
@@ -273,7 +273,7 @@ Proof.
   destruct p as [|a [|b [|c t]]].
   - destruct o; reflexivity.
   - destruct o; reflexivity.
-  - destruct o; cbn; [destruct (pt_eqb a b)|]; reflexivity.
+  - destruct o; reflexivity.
   - change (trim_l (a :: b :: c :: t) o) with
       (if o then a :: main_l a (b :: c :: t) ++ [last (b :: c :: t) a] else trim_closed_l (a :: b :: c :: t) a).
     set (p := a :: b :: c :: t). set (len := length p).
@@ -389,7 +389,7 @@ Qed.
 Lemma trim_l_sublist p o : sublist (trim_l p o) p.
 Proof.
   destruct p as [|a [|b [|c t]]]; try apply sublist_nil_l.
-  - cbn [trim_l]. destruct (negb o || pt_eqb a b); [apply sublist_nil_l|apply sublist_refl].
+  - cbn [trim_l]. destruct (negb o); [apply sublist_nil_l|apply sublist_refl].
   - change (trim_l (a :: b :: c :: t) o) with
       (if o then a :: main_l a (b :: c :: t) ++ [last (b :: c :: t) a] else trim_closed_l (a :: b :: c :: t) a).
     destruct o; [|apply trim_closed_l_sublist].
@@ -401,23 +401,21 @@ Proof. rewrite trim_collinear_eq. intros H; inversion H; subst. apply trim_l_sub
 
 (* ------------------------------------------------------------------ open paths keep their end points *)
 Theorem trim_open_keeps_ends p :
-  2 <= length p -> (forall a, p <> [a; a]) ->
+  2 <= length p ->
   exists r, trim_collinear p true = Ok r /\ keeps_ends r p = true.
 Proof.
-  intros Hlen Hne. rewrite trim_collinear_eq. eexists; split; [reflexivity|].
+  intros Hlen. rewrite trim_collinear_eq. eexists; split; [reflexivity|].
   destruct p as [|a [|b [|c t]]]; cbn [length] in Hlen; try lia.
-  - cbn [trim_l negb orb]. destruct (pt_eqb a b) eqn:E.
-    + apply pt_eqb_eq in E; subst. exfalso. eapply Hne; reflexivity.
-    + unfold keeps_ends, hd_pt, last_pt, opt_pt_eqb. rewrite !pt_eqb_refl. reflexivity.
+  - cbn [trim_l negb].
+    unfold keeps_ends, hd_pt, last_pt, opt_pt_eqb. cbn [last]. rewrite !pt_eqb_refl. reflexivity.
   - change (trim_l (a :: b :: c :: t) true) with (a :: main_l a (b :: c :: t) ++ [last (b :: c :: t) a]).
     unfold keeps_ends, hd_pt, last_pt, opt_pt_eqb. rewrite pt_eqb_refl. cbn [andb].
     rewrite last_last. apply pt_eqb_refl.
 Qed.
 
-(* the excluded case is a genuine exception of the code: an open path of two equal points is emptied *)
-Theorem trim_open_keeps_ends_refuted :
-  exists p, length p = 2 /\ trim_collinear p true = Ok [] /\ keeps_ends [] p = false.
-Proof. exists [(0, 0); (0, 0)]%Z. repeat split. Qed.
+(* the open path of two equal points (emptied before the repair `|| p[0] == p[1]` was dropped) is returned as it is *)
+Example trim_open_two_equal : trim_collinear [(0, 0); (0, 0)]%Z true = Ok [(0, 0); (0, 0)]%Z.
+Proof. reflexivity. Qed.
 
 (* ------------------------------------------------------------------ area *)
 Section Area.
